@@ -1225,6 +1225,16 @@ class SymMath:
         return math.erf(z)
 
     # plausible stdlib helpers a change to the library might reach for; exact real-number semantics
+    # a symbolic number stands for a finite real
+    def isfinite(self, x):
+        return True if isinstance(x, Sym) else math.isfinite(x)
+
+    def isnan(self, x):
+        return False if isinstance(x, Sym) else math.isnan(x)
+
+    def isinf(self, x):
+        return False if isinstance(x, Sym) else math.isinf(x)
+
     def isclose(self, a, b, rel_tol=1e-09, abs_tol=0.0):
         if not (isinstance(a, Sym) or isinstance(b, Sym)):
             return math.isclose(a, b, rel_tol=rel_tol, abs_tol=abs_tol)
